@@ -617,6 +617,15 @@ func (ip *idxProver) localVar(fn *Func, s string) types.Object {
 			}
 		}
 	}
+	if obj == nil && fn.Decl != nil && fn.Decl.Recv != nil {
+		for _, f := range fn.Decl.Recv.List {
+			for _, n := range f.Names {
+				if pathOf(info, n) == s {
+					obj = info.ObjectOf(n)
+				}
+			}
+		}
+	}
 	return obj
 }
 
